@@ -21,6 +21,7 @@ from typing import Dict, List, Optional, Set, Tuple
 
 from sa import paths
 from sa.db import DB, AnalysisError, ClassInfo, FuncInfo, norm, walk_no_nested
+from sa.fixtures import fixture
 from sa.report import Report
 
 FG = "teaal.ir.flow_graph.FlowGraph"
@@ -251,6 +252,18 @@ class Kinds:
                     out |= self.elems(val, f, depth + 1)
             return out or {"?"}
         return {"?"}
+
+
+@fixture("C10/K12 coarse memo matcher")
+def _fx_k12() -> bool:
+    src = ("class P:\n    def f(self, rank):\n        root = self.root_of(rank)\n"
+           "        if root not in self.memo:\n            self.memo[root] = self.leader(rank)\n"
+           "        return self.memo[root]\n"
+           "    def g(self, rank):\n        if rank not in self.memo:\n"
+           "            self.memo[rank] = self.leader(rank)\n        return self.memo[rank]\n")
+    tree = paths.link_parents(ast.parse(src))
+    f_, g_ = tree.body[0].body
+    return len(paths.coarse_memos(f_)) == 1 and not paths.coarse_memos(g_)
 
 
 def run(db: DB, rep: Report) -> None:
@@ -789,6 +802,21 @@ def run(db: DB, rep: Report) -> None:
                           (node_local, norm(lp.iter)[:40], bad))
     if n_k11 < 1:
         raise AnalysisError("no node built from a collection with a loop over the same collection found (K11)")
+
+    # ---- K12 memo tables are keyed by what the memoised answer depends on ----------------
+    rep.rule("K12", "a memoised answer about a rank/level is keyed by that rank/level itself", 100)
+    if not _fx_k12():
+        raise AnalysisError("K12 matcher does not fire on its positive example")
+    for f in db.all_functions(["teaal.ir."]):
+        cm = paths.coarse_memos(f.node)
+        rep.check("K12", not cm, db.loc(cm[0][0]) if cm else db.loc(f.node), f.short,
+                  "memo:" + (cm[0][1] if cm else f.short),
+                  "%s: no memo table keyed coarser than its argument" % f.short,
+                  "%s caches its answer under the key '%s', which is derived from %s through a call, while "
+                  "the answer is computed from %s itself: two ranks / levels that share the derived key "
+                  "(e.g. the levels of one multi-level partitioning) get the answer of whichever was asked "
+                  "first, and the dependence edge of the other goes to the wrong fiber" %
+                  (f.short, cm[0][1] if cm else "", cm[0][2] if cm else "", cm[0][2] if cm else ""))
 
     # ---- K4 hoist guard --------------------------------------------------------
     rep.rule("K4", "hoisting is guarded by non-descendance of the processed loop and inserts at its index", 1)
